@@ -19,7 +19,7 @@ def run(pid, rel, old, new, root="/repo", verbose=True):
     ctx = report.Context(pid, repo)
     mod = importlib.import_module(f"sa.props.{pid}")
     try:
-        mod.check(ctx)
+        report.run_check(mod, ctx)
     except AnalysisError as e:
         print("ANALYSIS-ERROR", e)
         return None
